@@ -156,6 +156,79 @@ def r_serde(f):
                     tm = dict((int(a), b2) for a, b2 in tb["targets"])
                     true_succ = tb["otherwise"] if 0 in tm else tm.get(1)
                 arms.append((lit, bi, true_succ))
+    # keys parsed into a crate enum first (`enum Field` with its own Deserialize): literal -> variant in that impl, variant ->
+    # arm of the `match key` in visit_map
+    if not arms:
+        for kt in keytys:
+            ename = norm_ty(kt).split("::")[-1].split("<")[0]
+            fbs = [b2 for b2 in f.fn_bodies if b2.name == "deserialize" and b2.impl_trait and b2.self_head == ename]
+            if len(fbs) != 1:
+                continue
+            fb_ = fbs[0]
+            fd_ = Dfx(fb_)
+            # t2 for the enum: how the key text is obtained
+            src_tys = [norm_ty(fn2.get("self_ty") or "") for _, _, fn2 in fb_.calls() if fn2 and fn2["name"] == "deserialize" and (fn2.get("trait") or "").endswith("Deserialize")]
+            n += 1
+            if src_tys:
+                okk = all(not t_.startswith("&") for t_ in src_tys)
+                R.inst(fb_.ident, "t2 the key enum reads its text as %s" % src_tys, okk)
+                if not okk:
+                    R.fail(fb_.ident, "t2:key:%s" % ",".join(src_tys), "%s reads the key as %s: a borrowed &str can only be produced by deserialisers that own the whole input and only for keys without escapes - from_reader / from_value (and escaped keys) fail" % (fb_.ident, src_tys), fb_.where())
+            else:
+                R.inconc(fb_.ident, "t2: how %s obtains the key text is not modelled (visitor-based identifier)" % ename)
+            lit2var = {}
+            for bi, t, fn in fb_.calls():
+                if fn and fn["name"] == "eq" and ("str" in fn["path"] or "str" in " ".join(fn.get("args", []))):
+                    lit = None
+                    for a in t["args"]:
+                        cs = const_str(fd_.expr(a))
+                        if cs is not None:
+                            lit = cs
+                    tb = fb_.blocks[t["target"]]["term"] if t["target"] is not None else None
+                    if lit is None or not tb or tb["k"] != "switch":
+                        continue
+                    tm = dict((int(a), b2) for a, b2 in tb["targets"])
+                    ts = tb["otherwise"] if 0 in tm else tm.get(1)
+                    seen_, work_ = set(), [ts]
+                    while work_:
+                        x = work_.pop(0)
+                        if x is None or x in seen_ or len(seen_) > 12:
+                            continue
+                        seen_.add(x)
+                        hit = None
+                        for st in fb_.blocks[x]["stmts"]:
+                            if st["k"] == "assign" and st["rv"]["k"] == "agg" and st["rv"].get("agg") == "adt" and st["rv"]["adt"].split("::")[-1] == ename:
+                                hit = st["rv"].get("variant_idx", st["rv"].get("variant"))
+                        if hit is not None:
+                            lit2var[lit] = hit
+                            break
+                        tt = fb_.blocks[x]["term"]
+                        if tt and tt["k"] == "call" and (tt["func"].get("fn") or {}).get("name") == "eq":
+                            continue
+                        work_.extend(fb_.succs(x))
+            # variant -> block in visit_map
+            ead = [a for a in f.adts if a["id"].split("::")[-1] == ename]
+            vnames = [v_["name"] if isinstance(v_, dict) else v_ for v_ in (ead[0].get("variants") or [])] if ead else []
+            dlocals = set()
+            for _, _, st in vm.stmts():
+                if st["k"] == "assign" and st["rv"]["k"] == "discr" and not st["p"]["proj"]:
+                    pl = st["rv"]["p"]
+                    ty_ = norm_ty(vm.locals[pl["local"]])
+                    if not pl["proj"] and ty_.split("::")[-1].split("<")[0] == ename:
+                        dlocals.add(st["p"]["local"])
+            for bi, bl in enumerate(vm.blocks):
+                tt = bl["term"]
+                if bl["cleanup"] or not tt or tt["k"] != "switch":
+                    continue
+                dd = tt["discr"]
+                if not (dd["k"] in ("copy", "move") and not dd["p"]["proj"] and dd["p"]["local"] in dlocals):
+                    continue
+                tm = dict((int(a), b2) for a, b2 in tt["targets"])
+                for lit, var in lit2var.items():
+                    idx = var if isinstance(var, int) else (vnames.index(var) if var in vnames else None)
+                    if idx is None:
+                        continue
+                    arms.append((lit, bi, tm.get(idx, tt["otherwise"])))
     # match on a str may also compile to a jump table on length + memcmp; literals then appear as constants
     lits = sorted({a[0] for a in arms})
     n += 1
